@@ -119,10 +119,10 @@ class Snapshot:
             if isinstance(a, torch.Tensor):
                 if a._version != self.versions[k]:
                     out.append((k, f'_version {self.versions[k]} -> {a._version}'))
-                if a.dtype != c.dtype or a.shape != c.shape or xc.fp(a)['sha'] != xc.fp(c)['sha'] or not torch.equal(a, c):
+                if a.dtype != c.dtype or a.shape != c.shape or xc.fp(a)['sha'] != xc.fp(c)['sha']:   # bytes (NaN cells compare equal to themselves)
                     out.append((k, 'tensor bytes changed'))
             else:
-                if a.dtype != c.dtype or a.shape != c.shape or a.tobytes() != c.tobytes() or not np.array_equal(a, c):
+                if a.dtype != c.dtype or a.shape != c.shape or a.tobytes() != c.tobytes():
                     out.append((k, 'ndarray bytes changed'))
         return out
 
@@ -240,6 +240,17 @@ def run_case(p):
     call('get_state_dict', lambda: model.get_state_dict())
     # a second predict on the training features themselves (the tensor the leaf centers were taken from)
     call('predict_train', lambda: model.predict(caller['X']))
+    # a query matrix with missing cells (NaN, +inf, -inf): whatever the library answers for such rows (an exception included), the
+    # caller's matrix keeps its bytes
+    qm = caller['X_query'].clone() if isinstance(caller['X_query'], torch.Tensor) else caller['X_query'].copy()
+    if qm.shape[0] >= 3:
+        qm[0, 0], qm[1, -1], qm[2, 0] = float('nan'), float('inf'), float('-inf')
+        caller['X_missing'] = qm
+        call('predict_missing', lambda: model.predict(qm))
+        if is_class:
+            call('predict_proba_missing', lambda: model.predict_proba(qm))
+        if not model.split_temperature:
+            call('get_grads_missing', lambda: model.get_grads(qm))
     return ops, info
 
 
@@ -262,7 +273,7 @@ def execute(chunk):
                 n_events += len(ev)
                 tag = o['op']
                 # what getThreads returned must be the state the model thinks we are in: checked through the closer
-                if o['raised'] is not None and not expect_raise:
+                if o['raised'] is not None and not (expect_raise or tag.endswith('_missing')):
                     res['failures'].append({'signature': f'C18:raises:{o["raised"].split(":")[0]}',
                                             'detail': f'{tag}: {o["raised"]}'})
                     continue
